@@ -27,6 +27,25 @@ CliOutcome(cfg, parseOK, warnings, msgNames) ==
     ELSE [exit |-> 0, stage |-> "write", files |-> TRUE,
           funcs |-> IF cfg.O /\ cfg.useF /\ cfg.F # {} THEN msgNames \cap cfg.F ELSE msgNames]
 
+(* run_bitproto: the -F argument as the command line spells it -- a sequence of tokens in which   *)
+(* "," separates the names and " " is a blank; each piece is stripped of the blanks around it;     *)
+(* the empty argument means "no filter".  A piece with a blank inside, or an empty piece, is a    *)
+(* name no message has.                                                                           *)
+RECURSIVE SplitAt(_, _)
+SplitAt(toks, sep) ==
+    IF \A x \in 1..Len(toks) : toks[x] # sep THEN << toks >>
+    ELSE LET k == CHOOSE x \in 1..Len(toks) : toks[x] = sep /\ \A y \in 1..(x - 1) : toks[y] # sep
+         IN  << SubSeq(toks, 1, k - 1) >> \o SplitAt(SubSeq(toks, k + 1, Len(toks)), sep)
+RECURSIVE StripL(_)
+StripL(p) == IF p # <<>> /\ p[1] = " " THEN StripL(Tail(p)) ELSE p
+RECURSIVE StripR(_)
+StripR(p) == IF p # <<>> /\ p[Len(p)] = " " THEN StripR(SubSeq(p, 1, Len(p) - 1)) ELSE p
+RECURSIVE Join(_)
+Join(p) == IF p = <<>> THEN "" ELSE p[1] \o Join(Tail(p))
+FilterNames(toks) ==
+    IF toks = <<>> THEN {}
+    ELSE LET ps == SplitAt(toks, ",") IN {Join(StripL(StripR(ps[x]))) : x \in 1..Len(ps)}
+
 (* traditional mode is asked of the parser iff -O is given and -c is not *)
 TraditionalParse(cfg) == cfg.O /\ ~cfg.check
 =============================================================================
